@@ -446,7 +446,8 @@ pub fn random_runs(args: &pv_core::Args) {
         let versions = cfg.versions();
         let mut d = Driver::new(cfg);
         // how eagerly confirmations are delivered in this run (C28: "arbitrarily delayed")
-        let sent_w = *rng.pick(&[1u64, 3, 8]);
+        // C27 confirms eagerly: delayed confirmations make the initiator ban honest peers (C28's defect)
+        let sent_w = if mode == "c27" { 12 } else { *rng.pick(&[1u64, 3, 8]) };
         // C27 runs and every second C29 run are "tame" (no Connected without an outstanding Connect, no stray handshake
         // messages), so that long runs exist next to the ones that hit the handshake assertion early
         // per-run profile: error storms / disconnect storms in some runs
@@ -465,7 +466,7 @@ pub fn random_runs(args: &pv_core::Args) {
             let mut c: Vec<(u64, Step)> = vec![];
             let inc_w = if tracked.len() < 3 { 16 } else if mode == "c27" && (tracked.len() as u64) < npeers * 2 / 3 { 8 } else { 3 };
             c.push((inc_w, Step::new("include", rng.range(1, npeers))));
-            c.push((24, Step::new("hk", 0)));
+            c.push((if mode == "c27" { 10 } else { 24 }, Step::new("hk", 0)));
             c.push((2, Step::new("idle", 0)));
             if !tracked.is_empty() {
                 let t = *rng.pick(&tracked);
@@ -501,7 +502,16 @@ pub fn random_runs(args: &pv_core::Args) {
                     }
                 }
                 if let Some(v) = d.views.get(p) {
-                    let opts = v.options('s');
+                    let mut opts = v.options('s');
+                    if mode == "c27" {
+                        // replies only to confirmed requests, handshakes mostly accepted: keeps the runs productive
+                        let pend: Vec<String> =
+                            d.pending.get(p).map(|v| v.iter().map(|m| msgs::describe(m).proto).collect()).unwrap_or_default();
+                        opts.retain(|o| !pend.contains(&o.proto));
+                        if opts.iter().any(|o| o.kind == "Accept") && rng.chance(4, 5) {
+                            opts.retain(|o| o.kind == "Accept");
+                        }
+                    }
                     if !opts.is_empty() {
                         let mut m = rng.pick(&opts).clone();
                         fill_payload(&mut rng, &mut m, &versions, npeers);
